@@ -2,4 +2,5 @@
 # Maintenance helper: one property's rule set on an in-memory overlay of /repo with a patch applied (nothing is written to /repo).
 # usage: tools/on_patch.sh <PROP> <patch.diff>
 cd /verif
+PYTHONHASHSEED=0; export PYTHONHASHSEED
 /venv/bin/python -B -m cobralint.selftest --prop "$1" --patch "$2" 2>&1 | grep '^NEW\|rror' | cut -c1-${3:-420}
